@@ -23,6 +23,7 @@ import (
 	"github.com/gardenbed/emerge/internal/ebnf/parser"
 	"github.com/gardenbed/emerge/zz_verif/gen"
 	"github.com/gardenbed/emerge/zz_verif/simrt"
+	simctl "github.com/moorara/algo/zz_simctl"
 )
 
 type Engine struct{ FixtureDir string }
@@ -143,6 +144,7 @@ type symVal struct {
 
 func (e Engine) Run(t *simrt.Tape, c simrt.Case, x *simrt.Ctx) *simrt.Result {
 	res := simrt.NewResult()
+	simctl.Begin(simctl.Sorted, c.Seed) // the dependency's clock-seeded PRNGs follow the case seed: exact replay
 	prods := parser.VerifProductions()
 
 	// cross-check the exported production list against the exported grammar (set equality)
